@@ -27,9 +27,12 @@ DPatterns(m) == {[i \in 1..m |-> ROne], [i \in 1..m |-> FromInt(3)],
 Bounds == {<<RZero, ROne>>, <<RTwo, FromInt(-1)>>, <<ROne, ROne>>, <<R(-1, 2), RZero>>}
 Scales == {RTwo, R(1, 4)}
 
+\* sexp: the scaled coefficient is additionally multiplied by 2^-sexp in the harness (an exact
+\* scaling in binary floating point): invariance must hold for EVERY positive constant, also
+\* one that makes the coefficient - and the whole linear system - tiny
 DiffCases(g) ==
-  {[op |-> "ExDiffusion", pts |-> g, D |-> d, start |-> b[1], end |-> b[2], scale |-> k] :
-     d \in DPatterns(Len(g) - 1), b \in Bounds, k \in Scales}
+  {[op |-> "ExDiffusion", pts |-> g, D |-> d, start |-> b[1], end |-> b[2], scale |-> k, sexp |-> sx] :
+     d \in DPatterns(Len(g) - 1), b \in Bounds, k \in Scales, sx \in {0, 60}}
 
 \* potentials: values at the grid points of a uniform grid on [-L, L]
 UGrid(np, L) == [i \in 1..np |-> R(2 * L * (i - 1) - L * (np - 1), np - 1)]
